@@ -141,7 +141,8 @@ func (r *runner) openBackend() error {
 }
 
 func (w *World) buildRequest(ctx context.Context, rq *Rq) (*http.Request, error) {
-	u := rq.URL
+	// (a scenario is JSON and cannot carry bytes that are not UTF-8: RAWFF / RAWFE stand for the bytes 0xff / 0xfe)
+	u := strings.ReplaceAll(strings.ReplaceAll(rq.URL, "RAWFF", "\xff"), "RAWFE", "\xfe")
 	if u == "" {
 		u = urlOf(rq.U, rq.USp)
 	}
